@@ -58,6 +58,10 @@ CLAIMED = {
          "Exploration: angle_signed_pi / angle_to_2pi / signed_compliment_2pi / angle_in_direction / signed_angle / directed_angle on the lattice {k*pi/2, +-1e6, +-1e-300, +-0} with one ulp either side and uniform angles to +-1e6, vector pairs incl. equal, opposite, perpendicular, tiny and huge; AngleInterval membership, negative extents, full turns, intersects and at_fraction against an arc-overlap oracle; Interval construction (NaN rejection), contains, contains_interval, overlaps, intersection, clamp, length against set definitions incl. equal and infinite bounds.",
          "Same-direction tolerance 1e-9; AngleInterval membership not judged within 1e-9 of either end (library ANGLE_TOL 1e-12).",
          "3 / C18"),
+ "C19": ("runtime monitor: orthonormality / handedness identities, variance definition, convention-free weight clauses and rigid-motion equivariance",
+         "Exploration: SvdBasis2/SvdBasis3::from_points on generic, planar, collinear and coincident point sets at offsets to 1e3, unweighted / equal / 0-1 / arbitrary weights (centre = weighted mean, orthonormal basis, non-increasing singular values, sv^2/n = variance along the axis, round trip through the basis, rank, equivariance, weight scaling, subset reproduction); the six two-vector frame constructors plus iso3_from_basis / iso3_from_xyo / iso2_from_basis on vector pairs of any length, skew down to 1e-6 rad, negated axes (half-turn frames), parallel and zero inputs; Plane3 from three points / point+normal / surface point, projection, inversion, ray-plane distance.",
+         "Basis vectors compared up to sign and only where singular values are separated; frame constructor inputs with |a x b| < 1e-8 that are not exactly degenerate are not judged.",
+         "3 / C19"),
 }
 
 def main():
